@@ -117,8 +117,10 @@ func parseOptUtxo(s string) (*utxo, bool) {
 	return parseUtxo(s, 4)
 }
 
-// register puts the previous transaction of u on the chain; lockHash is what the locking
-// script commits to (wallet pkh / deposit script hashes).
+// register puts output u.idx of the previous transaction u.id on the chain (several UTXOs of
+// one op may be different outputs of the same funding transaction); h20/h32 are what the
+// locking script commits to (wallet pkh / deposit script hashes). The value the chain reports
+// differs from the UTXO struct's value for odd ids: the assemblers must use the struct's.
 func (f *fakeChain) register(u *utxo, h20 []byte, h32 []byte) {
 	if u.kind == "x" {
 		return
@@ -134,15 +136,16 @@ func (f *fakeChain) register(u *utxo, h20 []byte, h32 []byte) {
 	case "S":
 		script = p2wsh(h32)
 	}
-	tx := &bitcoin.Transaction{Version: 1}
-	for i := uint32(0); i <= u.idx; i++ {
-		out := &bitcoin.TransactionOutput{Value: 1, PublicKeyScript: []byte{0x6a}} // OP_RETURN filler
-		if i == u.idx {
-			out = &bitcoin.TransactionOutput{Value: u.value, PublicKeyScript: script}
-		}
-		tx.Outputs = append(tx.Outputs, out)
+	tx := f.txs[txHash(u.id)]
+	if tx == nil {
+		tx = &bitcoin.Transaction{Version: 1}
+		f.txs[txHash(u.id)] = tx
 	}
-	f.txs[txHash(u.id)] = tx
+	for uint32(len(tx.Outputs)) <= u.idx {
+		tx.Outputs = append(tx.Outputs,
+			&bitcoin.TransactionOutput{Value: 1, PublicKeyScript: []byte{0x6a}}) // OP_RETURN filler
+	}
+	tx.Outputs[u.idx] = &bitcoin.TransactionOutput{Value: u.value + int64(u.id%2)*7, PublicKeyScript: script}
 }
 
 func toUtxo(u *utxo) *bitcoin.UnspentTransactionOutput {
@@ -153,6 +156,32 @@ func toUtxo(u *utxo) *bitcoin.UnspentTransactionOutput {
 		Outpoint: &bitcoin.TransactionOutpoint{TransactionHash: txHash(u.id), OutputIndex: u.idx},
 		Value:    u.value,
 	}
+}
+
+// shareTag tells whether intended inputs are different outputs of one funding transaction
+// and/or the very same outpoint twice.
+func shareTag(us []*utxo) string {
+	t := ""
+	shared, dup := false, false
+	for i, a := range us {
+		for _, b := range us[:i] {
+			if a == nil || b == nil || a.id != b.id {
+				continue
+			}
+			if a.idx == b.idx {
+				dup = true
+			} else {
+				shared = true
+			}
+		}
+	}
+	if shared {
+		t += "+sharedtx"
+	}
+	if dup {
+		t += "+dupoutpoint"
+	}
+	return t
 }
 
 func errClass(err error) string {
@@ -238,11 +267,13 @@ func exec(op string) (string, string) {
 			return "bad-op", "bad"
 		}
 		var deposits []*tbtc.Deposit
+		all := []*utxo{main}
 		for i, ds := range hx.SplitList(f[4]) {
 			u, ok := parseUtxo(ds, 5)
 			if !ok {
 				return "bad-op", "bad"
 			}
+			all = append(all, u)
 			note(u)
 			d := &tbtc.Deposit{
 				Utxo:      toUtxo(u),
@@ -285,7 +316,7 @@ func exec(op string) (string, string) {
 		if main != nil {
 			tag = "sweep+main"
 		}
-		return observe(b, ids), tag
+		return observe(b, ids), tag + shareTag(all)
 
 	case "redeem":
 		if len(f) != 7 {
@@ -410,7 +441,7 @@ func exec(op string) (string, string) {
 		if main != nil {
 			tag = "msweep+main"
 		}
-		return observe(b, ids), tag
+		return observe(b, ids), tag + shareTag([]*utxo{moved, main})
 
 	case "shares":
 		if len(f) != 3 {
@@ -479,14 +510,46 @@ func genFee(r *hx.Rng, n int, total int64) int64 {
 
 var nextID uint64
 
+// outpoints handed out for the op line being generated (reset per op)
+var opOutpoints [][2]int
+
 func genUtxo(r *hx.Rng, kinds string, badKinds string) string {
-	nextID++
 	kind := string(kinds[r.Intn(len(kinds))])
 	if r.Chance(1, 25) {
 		kind = string(badKinds[r.Intn(len(badKinds))])
 	}
-	// ids are unique within a run (two UTXOs never share a previous transaction)
-	return fmt.Sprintf("%d:%d:%d:%s", nextID, r.Range(0, 3), genValue(r), kind)
+	var id, idx int
+	if len(opOutpoints) > 0 && r.Chance(2, 5) {
+		// another output of a funding transaction already used by this op
+		id = opOutpoints[r.Intn(len(opOutpoints))][0]
+		used := map[int]bool{}
+		for _, o := range opOutpoints {
+			if o[0] == id {
+				used[o[1]] = true
+			}
+		}
+		idx = -1
+		for _, c := range r.Perm(9) {
+			if !used[c] {
+				idx = c
+				break
+			}
+		}
+	} else {
+		idx = -1
+	}
+	if idx < 0 {
+		// fresh funding transaction (ids unique within a run); the output index often equals
+		// one already used with another hash
+		nextID++
+		id = int(nextID)
+		idx = r.Range(0, 3)
+		if len(opOutpoints) > 0 && r.Bool() {
+			idx = opOutpoints[r.Intn(len(opOutpoints))][1]
+		}
+	}
+	opOutpoints = append(opOutpoints, [2]int{id, idx})
+	return fmt.Sprintf("%d:%d:%d:%s", id, idx, genValue(r), kind)
 }
 
 func genOptUtxo(r *hx.Rng, noneNum, noneDen int, kinds, bad string) string {
@@ -494,6 +557,12 @@ func genOptUtxo(r *hx.Rng, noneNum, noneDen int, kinds, bad string) string {
 		return "-"
 	}
 	return genUtxo(r, kinds, bad)
+}
+
+func setValue(u string, v int64) string {
+	p := strings.Split(u, ":")
+	p[2] = strconv.FormatInt(v, 10)
+	return strings.Join(p, ":")
 }
 
 func utxoValue(s string) int64 {
@@ -540,6 +609,9 @@ func gen(r *hx.Rng, n int, tier string) []string {
 	for i := 0; i < n; i++ {
 		k := r.Range(0, 5)
 		pkh := hex.EncodeToString(walletPkh(k))
+		opOutpoints = nil
+		equalValues := r.Chance(1, 8) // every amount of the op is the same number
+		eqv := genValue(r)
 		switch r.Intn(10) {
 		case 0, 1: // deposit sweep
 			main := genOptUtxo(r, 1, 3, "wp", "sSx")
@@ -555,6 +627,14 @@ func gen(r *hx.Rng, n int, tier string) []string {
 					fl = "b"
 				}
 				u := genUtxo(r, "sS", "wpx")
+				if equalValues {
+					u = setValue(u, eqv)
+				}
+				if len(deps) > 0 && r.Chance(1, 40) {
+					// the very same outpoint listed twice (the assembler does not deduplicate)
+					prev := deps[r.Intn(len(deps))]
+					u, fl = prev[:len(prev)-2], prev[len(prev)-1:]
+				}
 				total += utxoValue(u)
 				deps = append(deps, u+":"+fl)
 			}
@@ -575,8 +655,30 @@ func gen(r *hx.Rng, n int, tier string) []string {
 				if r.Chance(1, 40) {
 					t = a + int64(r.Range(0, 3)) // treasury fee eats the request (unvalidated here)
 				}
+				if equalValues {
+					a = eqv
+					if a > 1<<40 {
+						a = 1 << 40
+					}
+					t = a / 100
+				}
+				sc := genScript(r)
+				if r.Chance(1, 12) {
+					sc = "0014" + pkh // redeemer is the wallet itself: same script as the change
+				}
+				req := fmt.Sprintf("%s:%d:%d", sc, a, t)
+				if len(reqs) > 0 && r.Chance(1, 8) {
+					prev := strings.Split(reqs[r.Intn(len(reqs))], ":")
+					if r.Bool() {
+						req = strings.Join(prev, ":") // duplicate request
+						a, _ = strconv.ParseInt(prev[1], 10, 64)
+						t, _ = strconv.ParseInt(prev[2], 10, 64)
+					} else {
+						req = fmt.Sprintf("%s:%d:%d", prev[0], a, t) // same redeemer script, other amount
+					}
+				}
 				redeemable += a - t
-				reqs = append(reqs, fmt.Sprintf("%s:%d:%d", genScript(r), a, t))
+				reqs = append(reqs, req)
 			}
 			main := genOptUtxo(r, 1, 25, "wp", "sSx")
 			if main != "-" {
@@ -607,7 +709,11 @@ func gen(r *hx.Rng, n int, tier string) []string {
 			nt := count(r)
 			var ts []string
 			for j := 0; j < nt; j++ {
-				ts = append(ts, hex.EncodeToString(r.Bytes(20)))
+				t := hex.EncodeToString(r.Bytes(20))
+				if len(ts) > 0 && r.Chance(1, 8) {
+					t = ts[r.Intn(len(ts))] // the same target wallet twice
+				}
+				ts = append(ts, t)
 			}
 			fee := genFee(r, nt, utxoValue(main))
 			if r.Chance(1, 4) && nt > 0 { // exact multiple: zero remainder
@@ -617,6 +723,12 @@ func gen(r *hx.Rng, n int, tier string) []string {
 		case 8: // moved funds sweep
 			moved := genOptUtxo(r, 1, 25, "wp", "sSx")
 			main := genOptUtxo(r, 1, 2, "wp", "sSx")
+			if moved != "-" && r.Chance(1, 30) {
+				main = moved // the very same outpoint as both inputs
+			}
+			if equalValues && moved != "-" && main != "-" {
+				moved, main = setValue(moved, eqv), setValue(main, eqv)
+			}
 			ops = append(ops, fmt.Sprintf("msweep %d %s %s %s %d", k, pkh, moved, main, genFee(r, 1, utxoValue(moved)+utxoValue(main))))
 		default: // fee distribution alone
 			nn := r.Range(1, 60)
